@@ -900,6 +900,12 @@ def _resolve_action_conflicts(
                         # Adding _action_uid to avoid formatting flipping by black.
                         _action_uid = winning_event.action_uid
                         competing_flow_state.action_uids[index] = _action_uid
+                        # The scopes of the flow (e.g. of an or-group) refer to the action as well
+                        for _, scope_action_uids in competing_flow_state.scopes.values():
+                            if competing_event.action_uid in scope_action_uids:
+                                scope_action_uids[
+                                    scope_action_uids.index(competing_event.action_uid)
+                                ] = _action_uid
                         del state.actions[competing_event.action_uid]
 
                     advancing_heads.append(head)
